@@ -108,6 +108,7 @@ func (e *Engine) verifyFunc(fc *FuncContract, proved map[string]bool) *Unit {
 
 	f.entrySt = st.clone()
 	entryHeap := st.heap.clone()
+	f.frameWhole, f.frameRefs, f.frameAll = u.frameSets(f, fc, pkg, entryHeap)
 	f.run(st)
 
 	// postconditions at every return
@@ -148,6 +149,8 @@ func (e *Engine) verifyFunc(fc *FuncContract, proved map[string]bool) *Unit {
 			ob.retHeap = r.st.heap
 		}
 	}
+	// frame: nothing outside the modifies clause changes (for objects that existed at entry)
+	u.frameObligations(f, fc, pkg, entryHeap)
 	// exceptional exits
 	if fc.Recovers {
 		for i, ps := range f.panics {
@@ -365,4 +368,159 @@ func (u *Unit) assumeReachableWF(ref Term, t types.Type, st *State, depth int) {
 			}
 		}
 	}
+}
+
+// frameObligations generates, per return point and heap region, the obligation
+// that locations not covered by the modifies clause keep their entry value.
+func (u *Unit) frameObligations(f *Frame, fc *FuncContract, pkg *types.Package, entryHeap Heap) {
+	if f.frameAll {
+		return
+	}
+	for ri, r := range f.rets {
+		for _, region := range sortedKeys(u.rsorts) {
+			cond, ok := u.frameCond(f, region, r.st.heap, entryHeap)
+			if !ok {
+				continue
+			}
+			name := fmt.Sprintf("%s/frame/%s@ret%d", u.name, region, ri)
+			u.oblige("frame", name, "only locations named in modifies change in "+region, "", r.st.reach, cond)
+		}
+	}
+}
+
+// frameCond is the statement that region keeps its entry contents outside the
+// modifies clause (with a fresh Skolem reference); ok=false if there is nothing to check.
+func (u *Unit) frameCond(f *Frame, region string, heap, entryHeap Heap) (Term, bool) {
+	if strings.HasPrefix(region, "Gh_") || f.frameWhole[region] {
+		return tTrue, false
+	}
+	cur, changed := heap[region]
+	if !changed {
+		return tTrue, false
+	}
+	h0 := u.heapGet(entryHeap, region)
+	if cur.S == h0.S {
+		return tTrue, false
+	}
+	if strings.HasPrefix(region, "G_") {
+		return mkEq(cur, h0), true
+	}
+	sk := u.sc.fresh("frame_r", SInt)
+	return u.frameFormula(f, region, cur, h0, sk), true
+}
+
+func (u *Unit) frameFormula(f *Frame, region string, cur, h0, r Term) Term {
+	notAllowed := []Term{mk(SBool, ">", r, intConst(0)), mk(SBool, "<", r, u.wm0)}
+	for _, a := range f.frameRefs[region] {
+		notAllowed = append(notAllowed, mkNot(mkEq(r, a)))
+	}
+	es := strings.TrimSuffix(strings.TrimPrefix(u.rsorts[region], "(Array Int "), ")")
+	return mkImp(mkAnd(notAllowed...), mkEq(mk(es, "select", cur, r), mk(es, "select", h0, r)))
+}
+
+// frameSets evaluates the modifies clause in the entry state.
+func (u *Unit) frameSets(f *Frame, fc *FuncContract, pkg *types.Package, entryHeap Heap) (map[string]bool, map[string][]Term, bool) {
+	for _, m := range fc.Modifies {
+		if m == "*" || strings.HasPrefix(m, "pointee(") {
+			return nil, nil, true // everything may change
+		}
+	}
+	whole := map[string]bool{}
+	refs := map[string][]Term{}
+	entrySt := &State{reach: tTrue, heap: entryHeap, wm: u.wm0}
+	fail := func() (map[string]bool, map[string][]Term, bool) { return nil, nil, true }
+	for _, m := range fc.Modifies {
+		e, err := parseExpr(m)
+		if err != nil {
+			u.errorf("modifies %q: %v", m, err)
+			return fail()
+		}
+		ce := &CEnv{u: u, pkg: pkg, lookup: f.paramLookup, heap: entrySt.heap, old: entrySt.heap, bound: map[string]CVal{}}
+		switch x := e.(type) {
+		case *ECall:
+			if len(x.Args) != 1 {
+				u.errorf("modifies %q: unsupported", m)
+				return fail()
+			}
+			v, err := ce.evalAny(x.Args[0])
+			if err != nil {
+				u.errorf("modifies %q: %v", m, err)
+				return fail()
+			}
+			switch x.Fn {
+			case "elems":
+				sl, ok := v.Ty.Underlying().(*types.Slice)
+				if !ok {
+					u.errorf("modifies %q: not a slice", m)
+					return fail()
+				}
+				r, _ := u.elemRegion(sl.Elem())
+				refs[r] = append(refs[r], sBase(v.T))
+			case "deref":
+				pt, ok := v.Ty.Underlying().(*types.Pointer)
+				if !ok {
+					u.errorf("modifies %q: not a pointer", m)
+					return fail()
+				}
+				r := u.cellRegion(pt.Elem())
+				refs[r] = append(refs[r], v.T)
+			default:
+				u.errorf("modifies %q: unsupported", m)
+				return fail()
+			}
+		case *ESel:
+			if id, ok := x.X.(*EIdent); ok && pkg != nil {
+				if _, isVar := f.paramLookup(id.Name); !isVar {
+					if obj, ok := pkg.Scope().Lookup(id.Name).(*types.TypeName); ok {
+						fo, path, _ := types.LookupFieldOrMethod(obj.Type(), true, pkg, x.F)
+						if fv, ok := fo.(*types.Var); ok && fv.IsField() && len(path) == 1 {
+							whole[u.fieldRegion(obj.Type(), path[0])] = true
+							continue
+						}
+					}
+				}
+			}
+			ov, err := ce.evalAny(x.X)
+			if err != nil {
+				u.errorf("modifies %q: %v", m, err)
+				return fail()
+			}
+			p, ok := ov.Ty.Underlying().(*types.Pointer)
+			if !ok {
+				u.errorf("modifies %q: not a pointer", m)
+				return fail()
+			}
+			fo, path, _ := types.LookupFieldOrMethod(ov.Ty, true, namedPkg(ov.Ty, pkg), x.F)
+			if fv, ok := fo.(*types.Var); !ok || !fv.IsField() {
+				u.errorf("modifies %q: no such field", m)
+				return fail()
+			}
+			ref, cur := ov.T, p.Elem()
+			for i, idx := range path {
+				if i == len(path)-1 {
+					r := u.fieldRegion(cur, idx)
+					refs[r] = append(refs[r], ref)
+				} else {
+					ref = u.subObject(cur, idx, ref)
+					cur = cur.Underlying().(*types.Struct).Field(idx).Type()
+				}
+			}
+		case *EIdent:
+			if _, isGhost := f.ghostTy[x.Name]; isGhost {
+				continue
+			}
+			if pkg != nil {
+				if gv, ok := pkg.Scope().Lookup(x.Name).(*types.Var); ok {
+					whole[globalRegion(gv)] = true
+					continue
+				}
+			}
+			u.errorf("modifies %q: unknown", m)
+			return fail()
+		default:
+			u.errorf("modifies %q: unsupported", m)
+			return fail()
+		}
+	}
+	return whole, refs, false
 }
